@@ -76,7 +76,28 @@ def oracle_release(case, lines, runner=None):
                      'signature': 'res-slot-leaked'}]
     return []
 
+def oracle_preemption(case, lines, runner=None):
+    """a request call on a PreemptiveResource evicts exactly the worst-ranked user, and only if it ranks strictly worse than
+    the request at the head of the queue (computed from users/queue/key/preempt/capacity as they were before the call)"""
+    for n in runner.notes:
+        if n[0] == 'evict' and sorted(n[3]) != sorted(n[4]):
+            _, ri, now, want, got, users, queue = n
+            return [{'what': f'request call at {now} on preemptive resource {ri} with users {users} and waiting requests {queue} evicted '
+                             f'{got}; by the rule (worst-ranked user, only if strictly worse than the request being granted) it evicts {want}',
+                     'signature': 'res-preempt-victim'}]
+    return []
+
+def oracle_release_completes(case, lines, runner=None):
+    """releasing (also twice, also a non-user) is harmless: the Release itself always completes"""
+    if any(l.startswith('X ') for l in lines):
+        return []
+    for e in runner.keep:
+        if type(e).__name__ == 'Release' and not e.triggered:
+            return [{'what': f'release event {runner.lab(e)} (of request {runner.lab(e.request)}) never completed: a process waiting for it '
+                             f'would hang', 'signature': 'res-release-never-completes'}]
+    return []
+
 def run(ctx):
-    return kprops.run_kernel(ctx, 'C06', SPEC, 1500, 40000, oracles=[oracle_capacity_and_idle, oracle_grant_order, oracle_release],
+    return kprops.run_kernel(ctx, 'C06', SPEC, 1500, 40000, oracles=[oracle_capacity_and_idle, oracle_grant_order, oracle_release, oracle_preemption, oracle_release_completes],
                              nontrivial=lambda c, lines: any('q[' in l and 'q[]' not in l for l in lines),
                              rule='seeded request/hold/release/cancel/with-exit histories of 2-8 processes on 1-2 resources of the three classes; non-trivial = distinct history in which some request had to queue')
